@@ -1,6 +1,8 @@
 package rules
 
 import (
+	"go/constant"
+	"go/ast"
 	"fmt"
 	"go/token"
 	"go/types"
@@ -95,6 +97,14 @@ func selectorTableBound(fn *ssa.Function, bind map[*ssa.Parameter]ssa.Value, dep
 		call, _, ok := core.CallResult(v)
 		if !ok || !core.InfoOf(&call.Call).Is("google.golang.org/grpc/encoding.GetCodec") {
 			bad = "returns a codec that is not encoding.GetCodec(<name>)"
+			continue
+		}
+		// a lookup table: GetCodec(name) with name, ok := table[mediaType] on the ok edge, table a package-level
+		// map of string constants that nothing modifies
+		if lt, okLT := lookupTableOf(call.Call.Args[0], r); okLT {
+			for k, vv := range lt {
+				tab[k] = vv
+			}
 			continue
 		}
 		name := ""
@@ -1099,4 +1109,86 @@ func structLitField(v ssa.Value, i int) (val ssa.Value, zero bool, ok bool) {
 		return nil, true, true
 	}
 	return val, false, n == 1
+}
+
+// lookupTableOf: v is the value part of a comma-ok lookup in a package-level
+// map[string]string whose initialiser is a literal of constants and which no
+// library code modifies; at (the use) is dominated by the ok edge. It returns
+// the table.
+func lookupTableOf(v ssa.Value, at ssa.Instruction) (map[string]string, bool) {
+	var res map[string]string
+	found := false
+	for _, o := range core.Origins(v) {
+		ex, ok := core.Strip(o).(*ssa.Extract)
+		if !ok || ex.Index != 0 {
+			return nil, false
+		}
+		lk, ok := ex.Tuple.(*ssa.Lookup)
+		if !ok || !lk.CommaOk {
+			return nil, false
+		}
+		ld, ok := core.Strip(lk.X).(*ssa.UnOp)
+		if !ok {
+			return nil, false
+		}
+		g, ok := ld.X.(*ssa.Global)
+		if !ok || theProg == nil {
+			return nil, false
+		}
+		// on the ok edge
+		if !core.GuardedBy(at, func(f core.Fact) bool {
+			if f.Op != token.ILLEGAL || f.Neg {
+				return false
+			}
+			e2, isEx := core.Strip(f.X).(*ssa.Extract)
+			return isEx && e2.Tuple == ssa.Value(lk) && e2.Index == 1
+		}) {
+			return nil, false
+		}
+		// never modified
+		for _, fn := range theProg.LibFuncs("") {
+			mod := false
+			core.Instrs(fn, func(in ssa.Instruction) {
+				switch x := in.(type) {
+				case *ssa.MapUpdate:
+					if core.OriginIs(x.Map, func(m ssa.Value) bool {
+						u, isU := core.Strip(m).(*ssa.UnOp)
+						return isU && u.X == ssa.Value(g)
+					}) {
+						mod = true
+					}
+				case *ssa.Store:
+					if x.Addr == ssa.Value(g) && fn.Name() != "init" {
+						mod = true
+					}
+				}
+			})
+			if mod {
+				return nil, false
+			}
+		}
+		init := theProg.VarInit(g.Object())
+		cl, ok := init.(*ast.CompositeLit)
+		if !ok {
+			return nil, false
+		}
+		_, pk := theProg.FileOf(cl.Pos())
+		if pk == nil {
+			return nil, false
+		}
+		tab := map[string]string{}
+		for _, e := range cl.Elts {
+			kv, ok := e.(*ast.KeyValueExpr)
+			if !ok {
+				return nil, false
+			}
+			kt, vt := pk.TypesInfo.Types[kv.Key], pk.TypesInfo.Types[kv.Value]
+			if kt.Value == nil || vt.Value == nil || kt.Value.Kind() != constant.String || vt.Value.Kind() != constant.String {
+				return nil, false
+			}
+			tab[constant.StringVal(kt.Value)] = constant.StringVal(vt.Value)
+		}
+		res, found = tab, true
+	}
+	return res, found
 }
